@@ -1,6 +1,8 @@
 _COMMON = [
     'only executions produced by this run are judged (runtime monitoring, not proof)',
     'gcc/g++ 12 and rustc as installed, x86-64 SysV ABI; library rebuilt from /repo working tree with -fsanitize=address,undefined',
+    'foreign targets are judged at compile time only: clang 14 as a cross front end stands in for the target\'s own C compiler (cl.exe, mingw/arm/riscv gcc) and the Rust side '
+    'is the Rust reference\'s target-independent definition of usize/uN/c_int/repr(C) rendered in C, not a foreign rustc; calling-convention details beyond class and size of each parameter are not examined',
 ]
 SPEC = dict(
     custom='c20',
@@ -21,7 +23,12 @@ SPEC = dict(
          'crc8/16/32/64 eval is additionally compared with a bitwise MSB-/LSB-first reference written in Rust, and after every new_*/gen_* a probe eval tells whether the object '
          'evaluates with the function of the right bit order; violation keys api/<struct>::<fn>/result-differs-from-<c function> and .../state-differs-from-<c function>; '
          'a public item of lib.rs that the module does not cover or did not exercise makes the run inconclusive (evidence: uncovered_wrappers, unexercised_wrappers, wrapper_twin_calls); '
-         'all under ASan/UBSan. Both tiers run both real widths (f64 default and the f32 feature). distinct_nontrivial = distinct declarations (struct, function, static) '
+         'all under ASan/UBSan; (cross-target, COMPILE-TIME only) for 17 foreign targets plus this host\'s own triple as reference (LLP64 Windows msvc/gnu, ILP32 x86/ARM/RISC-V/wasm32/x32, big-endian ppc64/s390x, m68k, 16-bit msp430, ...) and both feature sets, '
+         'clang -fsyntax-only --target=<triple> compiles every public header with the flags of build.rs together with a generated C rendering of every mirror '
+         '(usize -> __UINTPTR_TYPE__, uN/iN -> exact-width, c_int -> int, real -> double/float, repr(C) -> `struct rs_<name>` laid out by clang for that target) and of every foreign '
+         'declaration; static assertions compare sizeof/_Alignof/offsetof/member size (C unit) and class+size(+pointee size) of every field, parameter, result and static (C++ unit, '
+         'templates over decltype(&a_fn)); a failed assertion is a violation abi/cross-target/<target>/<item>/<what>, nothing is executed for these targets '
+         '(evidence: cross_target_layouts). Both tiers run both real widths (f64 default and the f32 feature). distinct_nontrivial = distinct declarations (struct, function, static) '
          'and call-through scenarios compared on both sides.',
     exhaustive={},
     assumptions=_COMMON + [
@@ -42,6 +49,8 @@ SPEC = dict(
     level_note='seen by hand on the unchanged tree, outside the preconditions above (not judged by the check): version::parse(&str) and version::set_alpha(&[u8]) pass no length, '
                'a_version_parse/a_version_set_alpha read past a heap slice that has no terminator (ASan heap-buffer-overflow, version.c:138 / :97); pid_fuzzy::new().bfuzz() builds a slice '
                'from a null pointer (from_raw_parts_mut precondition abort); regress_linear over an empty coefficient slice divides by zero in pdm/bgd. '
-               'trusted: gdb/DWARF for C field order, g++ type traits, rustc size_of/offset_of!, the small lib.rs parser in bin/c20.py (run fails as inconclusive if it finds implausibly few items)',
-    technique='executed layout/signature probes on both sides of the FFI + cross-boundary transfer, call-through and wrapper-vs-C twin execution over random call histories under ASan; layout probe re-executed under simulated target predefines',
+               'Foreign data models (LLP64, ILP32, big-endian, 16-bit) are reached by static assertions that clang evaluates for the named target while compiling the current headers - a measurement by the compiler, '
+               'not an execution: a target clang has no back end for, or for which the headers do not compile with stub <math.h>/<string.h>, is skipped and listed (cross_target_layouts.skipped_targets). '
+               'trusted: clang\'s record layout and predefines for foreign targets, gdb/DWARF for C field order, g++ type traits, rustc size_of/offset_of!, the small lib.rs parser in bin/c20.py (run fails as inconclusive if it finds implausibly few items)',
+    technique='executed layout/signature probes on both sides of the FFI + cross-boundary transfer, call-through and wrapper-vs-C twin execution over random call histories under ASan; layout probe re-executed under simulated target predefines; compile-time layout/declaration assertions evaluated by clang -fsyntax-only for 17 foreign target triples',
 )
